@@ -246,7 +246,7 @@ def shared():
         if changed or added or removed:
             drv, err = build_gen_driver(hdir, os.path.join(hdir, 'gen_std'))
             if drv is None:
-                st['errors'].append('regenerated model does not compile: ' + err)
+                st['model_errors'] = ['regenerated model does not compile: ' + err[-1500:]]
             st['driver'] = drv
         else:
             st['driver'] = os.path.join(TFV, '.lake', 'build', 'bin', 'driver')
